@@ -13,7 +13,6 @@ import (
 	"bufio"
 	"bytes"
 	"compress/gzip"
-	stdcontext "context"
 	"errors"
 	"fmt"
 	"io"
@@ -131,6 +130,7 @@ type vfxCfg struct {
 	Compression    int // -1 absent, else minLength
 	ByHostName     bool
 	KeepHost       bool
+	PoolTimeout    string // "" or a duration (outside the stated quantifier; thorough-only dimension)
 }
 
 func (c *vfxCfg) serverYAML() string {
@@ -179,6 +179,9 @@ func (c *vfxCfg) pipelineYAML(backendHostPort string) string {
 		}
 		if p.ServerMax != 0 {
 			fmt.Fprintf(&b, "    serverMaxBodySize: %d\n", p.ServerMax)
+		}
+		if c.PoolTimeout != "" {
+			fmt.Fprintf(&b, "    timeout: %s\n", c.PoolTimeout)
 		}
 		if p.FilterValue != "" {
 			fmt.Fprintf(&b, "    filter:\n      headers:\n        X-Vf-Pool:\n          exact: %s\n", strconv.Quote(p.FilterValue))
@@ -238,28 +241,83 @@ func (m *vfxMapper) GetHandler(name string) (egcontext.Handler, bool) {
 	return nil, false
 }
 
-type vfxRig struct {
-	cfg      *vfxCfg
-	srvYAML  string
-	pipeYAML string
-
+// vfxHub: the two listeners of a test process. They are opened once and shared by all cases (a
+// listener pair per case exhausts the ephemeral ports of a busy machine); a case installs its own
+// mux / pipeline / backend script behind them.
+type vfxHub struct {
 	backend     *httptest.Server
-	backendAddr string // ip:port
-	backendHost string // what the pipeline was told (127.0.0.1:port or localhost:port)
+	backendPort string
 
-	pipe  *pipeline.Pipeline
-	mux   *mux
 	front *http.Server
-	ln    net.Listener
 	addr  string
 
-	mu     sync.Mutex
-	script *vfxScript
-	seen   []*vfxSeen
+	mu       sync.Mutex
+	cur      *vfxRig
+	reqID    int // process-wide request counter (tag X-Vf-Req-Id)
+	inflight sync.WaitGroup
 
-	conn *vfxConn // reusable client connection (nil when none)
+	conn *vfxConn // client connection kept across requests and cases while it stays reusable
 
 	frontLog vfxLogBuf // what net/http's ErrorLog of the front server printed (handler panics end up here)
+}
+
+var (
+	vfxHubOnce sync.Once
+	vfxTheHub  *vfxHub
+	vfxHubErr  error
+)
+
+func (h *vfxHub) current() *vfxRig {
+	h.mu.Lock()
+	defer h.mu.Unlock()
+	return h.cur
+}
+
+func vfxGetHub() (*vfxHub, error) {
+	vfxHubOnce.Do(func() {
+		h := &vfxHub{}
+		h.backend = httptest.NewUnstartedServer(http.HandlerFunc(func(w http.ResponseWriter, req *http.Request) {
+			if r := h.current(); r != nil {
+				r.backendHandler(w, req)
+				return
+			}
+			w.WriteHeader(598)
+		}))
+		h.backend.Config.ErrorLog = log.New(io.Discard, "", 0)
+		h.backend.Start()
+		_, h.backendPort, _ = net.SplitHostPort(h.backend.Listener.Addr().String())
+
+		// exactly what runtime.startServer builds (minus the fixed port); the handler is the mux of
+		// the current case
+		ln, err := net.Listen("tcp", "127.0.0.1:0")
+		if err != nil {
+			vfxHubErr = err
+			return
+		}
+		h.addr = ln.Addr().String()
+		h.front = &http.Server{
+			Handler: http.HandlerFunc(func(w http.ResponseWriter, req *http.Request) {
+				h.mu.Lock()
+				r := h.cur
+				if r != nil {
+					h.inflight.Add(1)
+				}
+				h.mu.Unlock()
+				if r == nil {
+					w.WriteHeader(597)
+					return
+				}
+				defer h.inflight.Done()
+				r.mux.ServeHTTP(w, req)
+			}),
+			IdleTimeout: 60 * time.Second,
+			ErrorLog:    log.New(&h.frontLog, "", 0),
+		}
+		h.front.SetKeepAlivesEnabled(true)
+		go func() { _ = h.front.Serve(limitlistener.NewLimitListener(ln, 10240)) }()
+		vfxTheHub = h
+	})
+	return vfxTheHub, vfxHubErr
 }
 
 type vfxLogBuf struct {
@@ -317,6 +375,25 @@ func vfxPanicSite(logText string) string {
 	return first + " @ " + site
 }
 
+// vfxRig is one case's chain behind the hub's listeners.
+type vfxRig struct {
+	hub      *vfxHub
+	cfg      *vfxCfg
+	srvYAML  string
+	pipeYAML string
+
+	backendHost string // what the pipeline was told (127.0.0.1:port or localhost:port)
+
+	pipe *pipeline.Pipeline
+	mux  *mux
+
+	mu         sync.Mutex
+	script     *vfxScript
+	seen       []*vfxSeen
+	lastReused bool // the latest request went out on a kept-alive connection
+	reqID      int  // id of the latest request sent (tag X-Vf-Req-Id); received() only returns its records
+}
+
 func (r *vfxRig) backendHandler(w http.ResponseWriter, req *http.Request) {
 	body, err := io.ReadAll(req.Body)
 	s := &vfxSeen{Method: req.Method, RequestURI: req.RequestURI, Path: req.URL.Path, RawQuery: req.URL.RawQuery,
@@ -368,29 +445,26 @@ func (r *vfxRig) backendHandler(w http.ResponseWriter, req *http.Request) {
 	}
 }
 
-// vfxNewRig builds the whole chain for one configuration. An error means the configuration was
-// rejected by the real acceptance path (a generator bug for the callers here).
+// vfxNewRig builds the chain for one configuration and installs it behind the hub's listeners.
+// An error means the configuration was rejected by the real acceptance path (a generator bug for
+// the callers here) or the hub could not be started.
 func vfxNewRig(cfg *vfxCfg) (rig *vfxRig, err error) {
-	r := &vfxRig{cfg: cfg}
-	r.backend = httptest.NewUnstartedServer(http.HandlerFunc(r.backendHandler))
-	r.backend.Config.ErrorLog = log.New(io.Discard, "", 0)
-	r.backend.Start()
-	r.backendAddr = r.backend.Listener.Addr().String()
-	_, port, _ := net.SplitHostPort(r.backendAddr)
+	hub, err := vfxGetHub()
+	if err != nil {
+		return nil, fmt.Errorf("hub: %v", err)
+	}
+	r := &vfxRig{hub: hub, cfg: cfg}
 	if cfg.ByHostName {
-		r.backendHost = "localhost:" + port
+		r.backendHost = "localhost:" + hub.backendPort
 	} else {
-		r.backendHost = "127.0.0.1:" + port
+		r.backendHost = "127.0.0.1:" + hub.backendPort
 	}
 	defer func() {
 		if p := recover(); p != nil {
 			err = fmt.Errorf("panic while building the rig: %v", p)
 		}
-		if err != nil {
-			r.backend.Close()
-			if r.pipe != nil {
-				r.pipe.Close()
-			}
+		if err != nil && r.pipe != nil {
+			r.pipe.Close()
 		}
 	}()
 
@@ -411,40 +485,41 @@ func vfxNewRig(cfg *vfxCfg) (rig *vfxRig, err error) {
 	r.mux = newMux(httpstat.New(), httpstat.NewTopN(10), mapper)
 	r.mux.reload(sspec, mapper)
 
-	// exactly what runtime.startServer builds (minus the fixed port)
-	ln, err := net.Listen("tcp", "127.0.0.1:0")
-	if err != nil {
-		return nil, err
-	}
-	r.ln = limitlistener.NewLimitListener(ln, 10240)
-	r.addr = ln.Addr().String()
-	r.front = &http.Server{
-		Handler:     r.mux,
-		IdleTimeout: 60 * time.Second,
-		ErrorLog:    log.New(&r.frontLog, "", 0),
-	}
-	r.front.SetKeepAlivesEnabled(true)
-	go func() { _ = r.front.Serve(r.ln) }()
+	hub.frontLog.take()
+	hub.mu.Lock()
+	hub.cur = r
+	hub.mu.Unlock()
 	return r, nil
 }
 
-// Close tears everything down and joins what the case started.
+// Close uninstalls the case, waits for its handlers and closes what it built.
 func (r *vfxRig) Close() {
-	r.dropConn()
-	ctx, cancel := stdcontext.WithTimeout(stdcontext.Background(), 20*time.Second)
-	_ = r.front.Shutdown(ctx)
-	cancel()
-	_ = r.front.Close()
+	h := r.hub
+	h.mu.Lock()
+	h.cur = nil
+	h.mu.Unlock()
+	done := make(chan struct{})
+	go func() { h.inflight.Wait(); close(done) }()
+	select {
+	case <-done:
+	case <-time.After(vfxIOTimeout):
+		// a handler of this case is stuck; it cannot influence a later case (cur is nil / replaced)
+		// but the client connection it may be bound to must not be reused
+		h.dropConn()
+	}
 	r.pipe.Close()
-	r.backend.CloseClientConnections()
-	r.backend.Close()
+	// the Proxy's transport is gone with the pipeline: let the backend close its idle connections
+	// (server side closes first, so no ephemeral port lingers in TIME_WAIT on the client side)
+	h.backend.CloseClientConnections()
 	r.mux.close()
 }
 
-func (r *vfxRig) dropConn() {
-	if r.conn != nil {
-		_ = r.conn.c.Close()
-		r.conn = nil
+func (r *vfxRig) dropConn() { r.hub.dropConn() }
+
+func (h *vfxHub) dropConn() {
+	if h.conn != nil {
+		_ = h.conn.c.Close()
+		h.conn = nil
 	}
 }
 
@@ -456,10 +531,19 @@ func (r *vfxRig) setScript(sc *vfxScript) {
 	r.mu.Unlock()
 }
 
+// received returns what the backend recorded for the latest request sent with do (records of
+// earlier requests whose backend handler finished late are not mixed in).
 func (r *vfxRig) received() []*vfxSeen {
 	r.mu.Lock()
 	defer r.mu.Unlock()
-	return append([]*vfxSeen(nil), r.seen...)
+	var out []*vfxSeen
+	id := strconv.Itoa(r.reqID)
+	for _, s := range r.seen {
+		if s.Header.Get("X-Vf-Req-Id") == id {
+			out = append(out, s)
+		}
+	}
+	return out
 }
 
 // ---------------------------------------------------------------------------------------------
@@ -767,18 +851,68 @@ func vfxHasToken(vals []string, tok string) bool {
 	return false
 }
 
+// probeBackend tells whether this process can open a TCP connection to the loopback backend at all
+// (on a machine that ran out of ephemeral ports it cannot, and the Proxy cannot either).
+func (r *vfxRig) probeBackend() error {
+	c, err := net.DialTimeout("tcp", "127.0.0.1:"+r.hub.backendPort, 10*time.Second)
+	if err != nil {
+		return err
+	}
+	return c.Close()
+}
+
+// exchange installs the script, sends q and collects what both ends saw. When the proxy answers
+// 503 without having reached the backend, the environment is probed: an unreachable loopback
+// backend is reported as an error (inconclusive); otherwise the request is sent once more and the
+// second outcome is the one that is judged (transient = true).
+func (r *vfxRig) exchange(q *vfxRequest, sc *vfxScript) (resp *vfxResponse, seen []*vfxSeen, frontLog string, transient bool, err error) {
+	for attempt := 0; ; attempt++ {
+		r.setScript(sc)
+		resp, err = r.do(q)
+		if err != nil {
+			return
+		}
+		seen = r.received()
+		frontLog = r.hub.frontLog.take()
+		if attempt == 0 && resp.Status == 503 && len(seen) == 0 {
+			if perr := r.probeBackend(); perr != nil {
+				err = fmt.Errorf("environment: the loopback backend cannot be reached from this process: %v", perr)
+				return
+			}
+			transient = true
+			continue
+		}
+		return
+	}
+}
+
 // do sends q and reads the response. The connection is reused when the previous exchange left
 // it reusable. Returns errVfxTimeout when the I/O deadline expired.
 func (r *vfxRig) do(q *vfxRequest) (*vfxResponse, error) {
-	reused := r.conn != nil
-	if r.conn == nil {
-		c, err := net.DialTimeout("tcp", r.addr, vfxIOTimeout)
+	r.hub.mu.Lock()
+	r.hub.reqID++
+	id := r.hub.reqID
+	r.hub.mu.Unlock()
+	r.mu.Lock()
+	r.reqID = id
+	r.mu.Unlock()
+	tagged := *q
+	tagged.Headers = append(append([][2]string{}, q.Headers...), [2]string{"X-Vf-Req-Id", strconv.Itoa(id)})
+	return r.do1(&tagged, true)
+}
+
+func (r *vfxRig) do1(q *vfxRequest, mayRetry bool) (*vfxResponse, error) {
+	h := r.hub
+	reused := h.conn != nil
+	r.lastReused = reused
+	if h.conn == nil {
+		c, err := net.DialTimeout("tcp", h.addr, vfxIOTimeout)
 		if err != nil {
 			return nil, fmt.Errorf("dial front server: %v", err)
 		}
-		r.conn = &vfxConn{c: c, br: bufio.NewReaderSize(c, 64<<10)}
+		h.conn = &vfxConn{c: c, br: bufio.NewReaderSize(c, 64<<10)}
 	}
-	conn := r.conn
+	conn := h.conn
 	_ = conn.c.SetDeadline(time.Now().Add(vfxIOTimeout))
 	wire := q.wire()
 
@@ -804,10 +938,10 @@ func (r *vfxRig) do(q *vfxRequest) (*vfxResponse, error) {
 		r.dropConn()
 		return nil, rerr
 	}
-	if reused && resp.Status == 0 && resp.Closed && len(resp.Headers) == 0 {
+	if reused && mayRetry && resp.Status == 0 && resp.Closed && len(resp.Headers) == 0 && len(r.received()) == 0 {
 		// the server may close an idle keep-alive connection at any time: retry once on a fresh one
 		r.dropConn()
-		return r.do(q)
+		return r.do1(q, false)
 	}
 	_ = conn.c.SetWriteDeadline(time.Time{})
 
